@@ -104,5 +104,7 @@ base(TI); edit('tls/tls.go', '''	var prealloc uint64
 ''', '''	var prealloc uint64
 	havePrealloc := false
 '''); edit('tls/tls.go', '				prealloc = v\n', '				prealloc = v\n				havePrealloc = true\n'); edit('tls/tls.go', '		info.prealloc = prealloc\n', '		if havePrealloc {\n			info.prealloc = prealloc\n			info.minlen = 0\n		}\n'); emit('mi9-hint-given-drops-minlen')
+base(None); edit('tls/tls.go', '		var innerBuf bytes.Buffer\n', '		innerBuf := bytes.NewBuffer(make([]byte, 0, 64))\n'); edit('tls/tls.go', 'marshalField(&innerBuf, v.Index(i), nil)', 'marshalField(innerBuf, v.Index(i), nil)'); emit('bj6-unchanged-tree-newbuffer-with-capacity')
+base(None); edit('tls/tls.go', '		var innerBuf bytes.Buffer\n', '		innerBuf := bytes.NewBuffer([]byte{0})\n'); edit('tls/tls.go', 'marshalField(&innerBuf, v.Index(i), nil)', 'marshalField(innerBuf, v.Index(i), nil)'); emit('mj14-unchanged-tree-newbuffer-with-contents')
 shutil.rmtree(TMP, ignore_errors=True)
 print('ok')
